@@ -118,6 +118,18 @@ func vArchive(payload []byte, secs []vSection, storeID bool) []byte {
 	return buf.Bytes()
 }
 
+// vArchiveV2Indexless wraps a payload into an index-less CARv2 without padding.
+func vArchiveV2Indexless(payload []byte) []byte {
+	var buf bytes.Buffer
+	buf.Write(carv2.Pragma)
+	h := carv2.Header{DataOffset: uint64(carv2.PragmaSize + carv2.HeaderSize), DataSize: uint64(len(payload))}
+	if _, err := h.WriteTo(&buf); err != nil {
+		panic("vArchiveV2Indexless")
+	}
+	buf.Write(payload)
+	return buf.Bytes()
+}
+
 func vSameKey(useWhole bool, a, b cid.Cid) bool {
 	if useWhole {
 		return a.Equals(b)
